@@ -150,8 +150,12 @@ package mhprimary
 //@   ensures @cur !(blk in cp.nextPool.refs) && (blk in cp.curPool.refs) ==> err == nil && key == cp.curPool.blocks[cp.curPool.refs[blk]].key && value == cp.curPool.blocks[cp.curPool.refs[blk]].value
 //@   ensures @miss !(blk in cp.nextPool.refs) && !(blk in cp.curPool.refs) ==> key == nil && value == nil
 
-//@ func (cp *MultihashPrimary) Get(blk types.Block) (key []byte, value []byte, err error)  property C01
+//@ func (cp *MultihashPrimary) Get(blk types.Block) (key []byte, value []byte, err error)  property C01 C07
 //@   preserves cp
+// record layout (reader side): the size prefix and blk.Size bytes are read from the file and local
+// offset the location decodes to; a record whose size prefix carries the deleted bit reads as absent
+//@   assert at before call filecache.FileCache.Open#0: @file-of-location $a1 == fname(cp.basePath, wrapu32(pfile(blk.Offset, cp.maxFileSize)))
+//@   assert at before call (*os.File).ReadAt#0: @whole-record-at-location len($a1) == blk.Size + 4 && (pfile(blk.Offset, cp.maxFileSize) < 4294967296 ==> $a2 == ploc(blk.Offset, cp.maxFileSize))
 //@   local requires @size-in-range blk.Size < (1 << 31)
 //@   modifies fp(FC)
 //@   ensures @pooled-next (blk in cp.nextPool.refs) && cp.nextPool.blocks[cp.nextPool.refs[blk]].key != nil ==> err == nil && key == cp.nextPool.blocks[cp.nextPool.refs[blk]].key && value == cp.nextPool.blocks[cp.nextPool.refs[blk]].value
